@@ -58,11 +58,23 @@ func solveAll(obls []*Obligation, timeoutS int, all bool, seed int) []SolveResul
 		go func(i int, o *Obligation) {
 			defer wg.Done()
 			defer func() { <-sem }()
+			// first the cone-of-influence slice (sound for unsat); the full query only if that does not settle it
+			if !o.ExpectSat && os.Getenv("GOVC_NO_SLICE") == "" {
+				st := timeoutS
+				if st > 10 {
+					st = 10
+				}
+				res[i] = Solve(o.SlicedQuery(seed), st, all, o.Probes)
+				if res[i].Status == "unsat" {
+					res[i].Sliced = true
+					return
+				}
+			}
 			res[i] = Solve(o.Query(seed), timeoutS, all, o.Probes)
 			if !o.ExpectSat && res[i].Status != "unsat" && res[i].Status != "sat" && res[i].Status != "error" {
 				// undecided: look for a candidate counterexample without the quantified loop frames
 				r2 := Solve(o.RelaxedQuery(seed), 10, false, o.Probes)
-				if r2.Status == "sat" {
+				if r2.Status == "sat" || (res[i].Model == nil && r2.Model != nil) {
 					res[i].Model = r2.Model
 					res[i].Raw = "full query: " + res[i].Status + "; candidate model from the query without quantified loop-frame facts (" + r2.Solver + "):\n" + r2.Raw
 					res[i].Relaxed = true
@@ -146,6 +158,7 @@ func cmdVerify(args []string) int {
 				}
 				if !ok && dump {
 					os.WriteFile(fmt.Sprintf("/tmp/govc-fail-%d.smt2", i), []byte(o.Query(0)), 0o644)
+					os.WriteFile(fmt.Sprintf("/tmp/govc-fail-%d.sliced.smt2", i), []byte(o.SlicedQuery(0)), 0o644)
 				}
 			}
 		}
